@@ -124,6 +124,8 @@ type Interp struct {
 	uuidStrs map[*Term]Value
 	bolts    map[*Loc]*boltBucket
 	cursors  map[*Loc]*boltCursor
+	boltDBs  map[*Loc]*boltDB
+	boltTxs  map[*Loc]*boltTx
 	bitsets  map[*Loc]*bitsetObj
 	builders map[*Loc]*[]*Term
 	timers   map[*Loc]*timerObj
@@ -487,6 +489,8 @@ func (in *Interp) runOnce(fn *ssa.Function) {
 	in.uuidStrs = map[*Term]Value{}
 	in.bolts = map[*Loc]*boltBucket{}
 	in.cursors = map[*Loc]*boltCursor{}
+	in.boltDBs = map[*Loc]*boltDB{}
+	in.boltTxs = map[*Loc]*boltTx{}
 	in.bitsets = map[*Loc]*bitsetObj{}
 	in.builders = map[*Loc]*[]*Term{}
 	in.timers = map[*Loc]*timerObj{}
@@ -682,9 +686,69 @@ func (in *Interp) callBodyB(fn *ssa.Function, args []Value, binds []Value) Value
 	for i, fv := range fn.FreeVars {
 		fr.env[fv] = binds[i]
 	}
-	ret := in.exec(fr)
+	ret := in.execFrame(fr)
 	in.depth--
 	return ret
+}
+
+// goPanicState: a Go-level panic (explicit or runtime) unwinding through interpreted frames
+// of the current goroutine while their deferred calls run.
+type goPanicState struct {
+	val       Value
+	recovered bool
+}
+
+// execFrame runs the frame; a Go panic raised below it runs the frame's pending deferred calls
+// and, if one of them recovers, makes the function return through its recover block.
+func (in *Interp) execFrame(fr *Frame) (ret Value) {
+	depth := in.depth
+	defer func() {
+		if len(fr.defers) == 0 {
+			return // nothing deferred here: the panic keeps unwinding
+		}
+		r := recover()
+		if r == nil {
+			return
+		}
+		pe, ok := r.(pathEnd)
+		t := in.cur
+		if !ok || pe.kind != "panic" || in.aborting || t == nil {
+			panic(r)
+		}
+		st := &goPanicState{val: t.panicVal}
+		t.panicVal = nil
+		if st.val == nil {
+			st.val = in.newErrorString("runtime error: " + pe.msg)
+		}
+		prev := t.panicSt
+		t.panicSt = st
+		defers := fr.defers
+		fr.defers = nil
+		in.depth = depth
+		for i := len(defers) - 1; i >= 0; i-- {
+			defers[i]()
+		}
+		t.panicSt = prev
+		if !st.recovered {
+			t.panicVal = st.val
+			panic(r)
+		}
+		in.depth = depth
+		if fr.fn.Recover != nil {
+			ret = in.execAt(fr, fr.fn.Recover)
+			return
+		}
+		res := fr.fn.Signature.Results()
+		switch res.Len() {
+		case 0:
+			ret = nil
+		case 1:
+			ret = zero(res.At(0).Type())
+		default:
+			ret = zero(res)
+		}
+	}()
+	return in.exec(fr)
 }
 
 func (in *Interp) get(fr *Frame, v ssa.Value) Value {
@@ -756,8 +820,9 @@ func (s StrV) concrete() (string, bool) {
 	return string(bs), true
 }
 
-func (in *Interp) exec(fr *Frame) Value {
-	block := fr.fn.Blocks[0]
+func (in *Interp) exec(fr *Frame) Value { return in.execAt(fr, fr.fn.Blocks[0]) }
+
+func (in *Interp) execAt(fr *Frame, block *ssa.BasicBlock) Value {
 	var prev *ssa.BasicBlock
 	for {
 		// phis of a block are evaluated in parallel: read all, then assign
@@ -851,6 +916,9 @@ func (in *Interp) step(fr *Frame, block *ssa.BasicBlock, ins ssa.Instruction, pr
 		}
 		fr.defers = nil
 	case *ssa.Panic:
+		if in.cur != nil {
+			in.cur.panicVal = in.get(fr, x.X)
+		}
 		in.abort("panic", "explicit panic in "+fr.fn.String())
 	case *ssa.Store:
 		p := in.get(fr, x.Addr).(PtrV)
